@@ -86,7 +86,8 @@ register("C12", [
 
 # ---------------------------------------------------------------------------------------------
 # ConcatDataset.__getitem__ / cumsum
-_C_BINDS = {"idx": "idx", "len(self)": "len", "dataset_idx": "d", "self.cumulative_sizes[dataset_idx - 1]": "prev"}
+_C_BINDS = {"idx": "idx", "len(self)": "len", "dataset_idx": "d", "self.cumulative_sizes[dataset_idx - 1]": "prev",
+            "self.cumulative_sizes[dataset_idx]": "curc"}
 
 
 def _cumsum_append(k: Kernel, fn: ast.FunctionDef) -> str:
@@ -111,8 +112,8 @@ register("C12", [
            guard_condition(_C_BINDS, 0), ret_type="Bool", imports=IMP),
     Kernel("concat_neg_idx", DS, "ConcatDataset.__getitem__", ["idx", "len"], "Dataset.concatNegIdx",
            assign_value(_C_BINDS, "idx"), imports=IMP),
-    Kernel("concat_sample_idx", DS, "ConcatDataset.__getitem__", ["idx", "d", "prev"], "Dataset.concatSampleIdx",
-           assign_value(_C_BINDS, "sample_idx"), imports=IMP),
+    Kernel("concat_sample_idx", DS, "ConcatDataset.__getitem__", ["idx", "d", "prev", "curc"],
+           "(fun idx d prev _ => Dataset.concatSampleIdx idx d prev)", assign_value(_C_BINDS, "sample_idx"), imports=IMP),
     Kernel("cumsum_append", DS, "ConcatDataset.cumsum", ["length", "total"], "(fun l t => l + t)", _cumsum_append, imports=IMP),
     Kernel("cumsum_total", DS, "ConcatDataset.cumsum", ["length", "total"], "(fun l t => t + l)", _cumsum_total, imports=IMP),
 ])
@@ -154,6 +155,16 @@ register("C12", [
 
 # ---------------------------------------------------------------------------------------------
 # structural tables
+import re as _re
+
+_STREAM_CTORS = ("np.random.RandomState", "np.random.default_rng")
+
+
+def _global_draw(f: str) -> bool:
+    """a call of a module-level function of numpy's global stream (`np.random.randn(...)`), not a constructor"""
+    return bool(_re.fullmatch(r"np\.random\.\w+", f)) and f not in _STREAM_CTORS
+
+
 def _calls(fn, pred):
     return [n for n in ast.walk(fn) if isinstance(n, ast.Call) and pred(_txt(n.func))]
 
@@ -241,7 +252,7 @@ def _window_table(tree) -> dict[str, bool]:
         t["new_shape_copies_read_shape"] = all(
             any(_txt(s) == "new_shape=list(curr_shape).copy()" for s in st.body) for st in (a, b))
     except Untranslatable:
-        t["zeros_before_data"] = t["zeros_after_data"] = t["new_shape_copies_read_shape"] = False
+        raise
     t["depth_axis_moved_to_second"] = any(_txt(s) == "curr_data=np.swapaxes(curr_data,0,1)" for s in els)
     return t
 
@@ -285,7 +296,7 @@ def _fake_table(ds_tree, fk_tree, sn_tree) -> dict[str, bool]:
     mb = find_function(fk_tree, "FakeMRIData.make_blobs")
     calls = _calls(mb, lambda f: f == "make_blobs")
     a = _arg(calls[0], None, "random_state") if len(calls) == 1 else None
-    t["blobsRandomStateIsSeed"] = a is not None and _txt(a) == "seed" and not _calls(mb, lambda f: f.startswith("np.random."))
+    t["blobsRandomStateIsSeed"] = a is not None and _txt(a) == "seed" and not _calls(mb, _global_draw)
     calls = _calls(gk, lambda f: f == "simulate_sensitivity_maps")
     a = _arg(calls[0], 3, "seed") if len(calls) == 1 else None
     t["kspacePassesSeedToSens"] = a is not None and _txt(a) == "seed"
@@ -299,7 +310,7 @@ def _sens_seeds(sn_tree) -> bool:
     if len(seeds) != 1 or _txt(seeds[0].test) != "seedisnotNone":
         return False
     # the seeding must precede every draw from the global stream
-    draws = [n.lineno for n in _calls(ss, lambda f: f.startswith("np.random.") and f != "np.random.seed")]
+    draws = [n.lineno for n in _calls(ss, lambda f: _global_draw(f) and f != "np.random.seed")]
     return all(d > seeds[0].lineno for d in draws)
 
 
@@ -310,8 +321,29 @@ def _shepp_table(ds_tree, sn_tree) -> dict[str, bool]:
     a = _arg(calls[0], 3, "seed") if len(calls) == 1 else None
     t["passesSeedToSens"] = a is not None and _txt(a) == "self.seed[idx]"
     t["sensSeedsWhenNotNone"] = _sens_seeds(sn_tree)
-    glob = _calls(gi, lambda f: f.startswith("np.random.") and f not in ("np.random.RandomState", "np.random.default_rng"))
-    t["noiseSeeded"] = not glob
+    # no draw from the global stream in __getitem__ itself, and every private stream is seeded with the slice's seed
+    ctors = _calls(gi, lambda f: f in _STREAM_CTORS)
+    t["noiseSeeded"] = not _calls(gi, _global_draw) and all(
+        len(c.args) == 1 and not c.keywords and _txt(c.args[0]) == "self.seed[idx]" for c in ctors)
+    return t
+
+
+def _init_seed_table(ds_tree) -> dict[str, bool]:
+    """per-sample / per-slice seeds are drawn once, at construction, from a private stream seeded with the dataset seed"""
+    t: dict[str, bool] = {}
+    ts = find_function(ds_tree, "temp_seed")
+    t["temp_seed_saves_seeds_restores"] = [_txt(s) for s in ts.body[:2]] == ["state=rng.get_state()", "rng.seed(seed)"] and any(
+        isinstance(s, ast.Try) and any(_txt(x) == "rng.set_state(state)" for x in s.finalbody) for s in ts.body)
+    for cls, key in (("FakeMRIBlobsDataset", "fake"), ("SheppLoganDataset", "shepp")):
+        init = find_function(ds_tree, f"{cls}.__init__")
+        t[f"{key}_private_stream"] = any(_txt(s) == "self.rng=np.random.RandomState()" for s in init.body)
+        withs = [s for s in init.body if isinstance(s, ast.With) and len(s.items) == 1
+                 and _txt(s.items[0].context_expr) == "temp_seed(self.rng,seed)"]
+        ch = _calls(init, lambda f: f == "self.rng.choice")
+        inside = [c for w in withs for c in _calls(w, lambda f: f == "self.rng.choice")]
+        t[f"{key}_seeds_drawn_under_temp_seed"] = len(withs) == 1 and len(ch) == 1 and len(inside) == 1 and \
+            _txt(_arg(ch[0], None, "replace") or ast.Constant(None)) == "False"
+        t[f"{key}_no_global_stream_at_construction"] = not _calls(init, _global_draw)
     return t
 
 
@@ -353,6 +385,8 @@ def _c12_extra():
     out.append("/-- structure of `H5SliceData.parse_filenames_data` -/\n" + _emit_list("parseTable", pt))
     out.append("/-- structure of `H5SliceData.get_slice_data` -/\n" + _emit_list("windowTable", wt))
     out.append("/-- structure of `ConcatDataset` -/\n" + _emit_list("concatTable", ct))
+    it = table("initSeedTable", lambda: _init_seed_table(ds), {"skipped": True})
+    out.append("/-- construction-time seeding of FakeMRIBlobsDataset / SheppLoganDataset -/\n" + _emit_list("initSeedTable", it))
     ft = table("fakeTable", lambda: _fake_table(ds, fk, sn), None)
     if ft is None:
         out.append("/-- SKIPPED -/\ndef fakeTable : Dataset.SeedTable := Dataset.fakeTableCurrent\n")
